@@ -12,11 +12,11 @@ TB = ("Trusted: TLC 1.8.0; harness/wire.py (own protobuf codec); the projections
 CHECKS = {
  "C20": ("fault_enumeration", "6 C20",
          "Rejections (unsupported term, typed literal with the datatype table disabled, tuple ending early, unencodable inner term of a quoted triple, statement too large) are injected by the PyWriter model "
-         "(action SlotReject) at every slot and random positions, and enumerated for GraphStream over cause x slot x position; the real streams are driven catch-and-continue and the bytes judged by TLC against the accepted statements. "
+         "(action SlotReject) at every slot and random positions, and enumerated for TripleStream/QuadStream (cause x slot x nesting x earlier slots repeated / fresh / touching no table) and GraphStream (cause x slot x position); the real streams are driven catch-and-continue -- first of all with the rejected statement repaired, so that its earlier slots repeat exactly -- and the bytes judged by TLC against the accepted statements. "
          "TLC also closes the rejection universes exhaustively (Good holds with the refusal guard, is violated without it).",
          "TLC model checking + simulation of PyWriter with SlotReject, replayed catch-and-continue into real Streams + TLC trace judging (prefix validity)"),
  "C01": ("model_checking", "6 C01",
-         "State-graph comparison: every reachable idle state x every statement of small slices is executed on real Stream objects, the reachable state sets equal TLC's and every real transition is re-executed by TLC on PyWriter (spec/TraceWriter.tla: same rows, same successor, composite clause Good), so for those slices the model's exhaustive theorem transfers to the code. "
+         "State-graph comparison at the granularity of one public call: every reachable idle state x every call of small slices (triple / quad / namespace_declaration / GraphStream.graph(g, 0..k triples); refused calls included: the stream must then be failed) is executed on real Stream objects, the reachable state sets equal TLC's and every real call is re-executed by TLC on PyWriter (spec/TraceWriter.tla: same rows, same successor, composite clause Good), so for those slices the model's exhaustive theorem transfers to the code. "
          "TLC closes the composition PyWriter o JellyReader (per-statement invariants Good/Mirrored/TablesBounded/BufBounded) on slice universes, i.e. for histories of any length within each slice; "
          "TLC-simulated behaviours of larger universes are replayed op by op into real Streams (model rows = real rows) and through the whole-sequence entry points; "
          "every byte string is judged by TLC (TraceReader) and parsed back with pyjelly; long deterministic workloads wrap tables of 128/256/4096 entries. Exhaustive per slice, sampled beyond; string-level variety through four substitution classes (identity, realistic, unicode, odd content).",
@@ -24,7 +24,7 @@ CHECKS = {
  "C02": ("model_checking", "6 C02",
          "RDF 1.1 behaviours of PyWriter (TLC simulation) are built as rdflib Graph/Dataset (default, IRI and bnode graph names; plain, language-tagged and typed objects incl. xsd:string and non-canonical lexical forms) and written through Graph.serialize with TripleStream / QuadStream / GraphStream, "
          "flat and grouped logical types, delimited and non-delimited flat, and through the stream functions; the bytes are judged by TLC as a SET against what rdflib reports as the input, and parsed back through Graph.parse / Dataset.parse, parse_jelly_to_graph and parse_jelly_flat. "
-         "The composition PyWriter o JellyReader is closed exhaustively on the TRIPLES/QUADS/GRAPHS slices.",
+         "Every fifth behaviour is written with tables smaller than one statement may need (refusal allowed, silent corruption not). The composition PyWriter o JellyReader is closed exhaustively on the TRIPLES/QUADS/GRAPHS slices.",
          "TLC simulation + model checking of PyWriter, replay through the rdflib entry points, TLC trace judging with set semantics"),
  "C03": ("model_checking", "6 C03",
          "The independent decoder IS the Tier-1 TLA+ reader: every stream the real serializer writes (model-generated inputs, all generic entry points) is decoded by /verif's own codec and validated row by row by TLC, including denotation = input; so is every stream the repository's OWN test suite makes pyjelly write (recorded from outside by a pytest plugin on a scratch copy of the working tree).",
@@ -92,7 +92,7 @@ CHECKS = {
          "TLC exhaustive enumeration of hostile token sequences (spec/Hostile.tla) + watchdogged execution of every parse entry point; random byte perturbation"),
  "C18": ("model_checking", "6 C18",
          "PyWriter (with the per-row claim/refusal logic of TermEncoder) is simulated with the Fits guard off over universes whose statements need more prefix/datatype/name entries than the table holds; "
-         "each behaviour is replayed into a real Stream: the refusal must come exactly where the model refuses, and whatever was written is judged by TLC against the accepted statements.",
+         "each behaviour is replayed into a real Stream (generic term encoder, and the rdflib term encoder for the IRI-only universes): the refusal must come exactly where the model refuses, and whatever was written is judged by TLC against the accepted statements.",
          "TLC simulation of PyWriter (CheckFits=FALSE) replayed into real Streams + TLC trace judging"),
  "C19": ("model_checking", "6 C19",
          "Audit clauses (redundant entry, missed elision, missed zero form, missed regrouping) are part of the Tier-1 reader and are evaluated by TLC on every row of every real stream; the model composition checks the same clauses exhaustively on the slices.",
